@@ -58,7 +58,7 @@ def case(g, tier, ci):
                 levels.append(lv)
             ops += level_element(g, eid, SR, N, order, levels)
         else:
-            ops += sg.element(eid, SR, N, order, raw_p=0.3, kinds=("ramp",), markers=True)
+            ops += sg.element(eid, SR, N, order, raw_p=0.3, kinds=("ramp",), markers=True, waits=0.4)     # waituntil x channel delay
             for ch in chans:
                 amps[ch] = max(amps[ch], 4.5)
                 offs[ch] = r.choice([0, 0.25])
@@ -67,7 +67,7 @@ def case(g, tier, ci):
         ops.append({"op": "sq.setAmp", "id": "s", "ch": ch, "v": enc(amps[ch])})
         if r.random() < 0.95:
             ops.append({"op": "sq.setOff", "id": "s", "ch": ch, "v": enc(offs[ch])})
-        if not boundary and r.random() < 0.2:
+        if not boundary and r.random() < 0.35:
             ops.append({"op": "sq.setDelay", "id": "s", "ch": ch, "v": enc(r.choice([2, 3]) / SR)})
         if not boundary and r.random() < 0.15:
             ops.append({"op": "sq.setFilter", "id": "s", "ch": ch, "kind": r.choice(["HP", "LP"]), "order": 1, "orderIsInt": True,
